@@ -354,6 +354,9 @@ class EditDistance(SequenceEdit):
                     assert len(self.edit_matrix) == len(self.to_seq) + 1
                     assert len(self.edit_matrix[0]) == len(self.from_seq) + 1
                     row, col = len(self.to_seq), len(self.from_seq)
+                    # the bottom-right cell is the only one the fringe loop of tighten_bounds() does not make definitive
+                    while self.edit_matrix[row][col].tighten_bounds():
+                        pass
                     while row > 0 or col > 0:
                         prev_row, prev_col, edit = self._best_match(row, col)
                         reversed_suffix.append(edit)
